@@ -1,6 +1,7 @@
 package rules
 
 import (
+	"os"
 	"fmt"
 	"go/token"
 	"go/types"
@@ -247,6 +248,9 @@ func nonceOK(c *Ctx, a *effects.Analysis, cx *bounds.Ctx, f *ssa.Function, use s
 		}
 		lo, _ := cx.Entails(facts, reg.lo.Add(fs.reg.lo, -1))
 		hi, _ := cx.Entails(facts, fs.reg.hi.Add(reg.hi, -1))
+		if os.Getenv("TV_DBG_NONCE") != "" && strings.Contains(f.String(), os.Getenv("TV_DBG_NONCE")) {
+			fmt.Fprintf(os.Stderr, "NONCE %s: fill [%s,%s) nonce [%s,%s) lo=%v hi=%v goalhi=%s facts=%v\n", f, fs.reg.lo, fs.reg.hi, reg.lo, reg.hi, lo, hi, fs.reg.hi.Add(reg.hi, -1), facts)
+		}
 		if !lo || !hi {
 			continue
 		}
